@@ -3,12 +3,22 @@
    cf_maybe_null hints of check_definitions).  All theorems hold for EVERY finite CFG, every block
    order and every gen/kill assignment.
 
-   NOT proved (the property stays partial there, and is false - finding del_in_try_no_exception_edge):
-     cfg_covers_paths : every interpreter execution of a function body is a path of the CFG that
-     ControlFlowAnalysis builds for it, and initialize()'s i_gen/i_kill summarise the block statements.
-   That part is tested by the correspondence run (compiled functions vs CPython). *)
+   CFG construction (Model/M_FlowCFG.v = ControlFlowAnalysis.visit_* for references, assignments, del,
+   if, while/for..else, try/except/else, try/finally, with (desugared), break, continue, return,
+   raise + the unreachable-block part of normalize): for the REPAIRED builder (fx = true,
+   proposed_fixes/C21-jump_through_nested_finally.diff) every execution of a function body is covered
+   by the graph (C21_cfg_covers_paths) and therefore every name read while unbound carries a
+   cf_maybe_null / cf_is_null hint (C21_unbound_use_is_checked), under the decidable side condition
+   graph_ok that the extracted model evaluates on every program.  For the builder AS IT IS (fx = false)
+   the statement is false: C21_asis_*_refuted (findings jump_skips_outer_finally,
+   exception_in_finally_ending_in_jump).
+   NOT proved: graph_ok (build ...) = true for all programs (edges leave from block ends etc.; checked
+   at run time); an as-is theorem restricted to programs outside the two finding classes; statements
+   outside the modelled language (match, comprehensions, closures, augmented assignment) are tested
+   only. *)
 From Coq Require Import NArith List Bool Arith.
 From CyVerif Require Import Model.M_Flow Proof.P_Flow.
+From CyVerif Require Import Model.M_FlowCFG Proof.P_FlowCFG Proof.P_FlowCFG_Sim Proof.P_FlowCFG_Bridge.
 Import ListNotations.
 
 (* the "while dirty" loop finishes within len(blocks)*bits+1 passes (rd_fuel), whatever the graph *)
@@ -82,6 +92,81 @@ Theorem C21_walk_spec : forall c mask ns x pre p post,
            (has_uninit (state_after mask pre x) e) (has_other mask (state_after mask pre x) e).
 Proof. exact P_Flow.walk_spec. Qed.
 Print Assumptions C21_walk_spec.
+
+(* ---- CFG construction ------------------------------------------------------------------------- *)
+
+(* every read/del of a name that some execution of the body performs while the name is unbound is a
+   reference statement of the graph built by the repaired ControlFlowAnalysis, at a position that a
+   path from the entry point reaches with the name unbound.  Executions: any outcome of conditions,
+   loop counts, raise points, handler matches; break/continue/return/raise through any nesting of
+   try/finally, try/except and loops. *)
+Theorem C21_cfg_covers_paths : forall args body tr o s2,
+  wf false body = true ->
+  exec (IS body) (bind args s_init) tr o s2 ->
+  Forall (justified (build true args body)) tr.
+Proof. exact P_FlowCFG_Sim.cfg_covers_paths. Qed.
+Print Assumptions C21_cfg_covers_paths.
+
+(* ... and check_definitions (M_Flow.analyse on that graph, after detaching unreachable blocks) gives
+   that reference the cf_maybe_null hint, so NameNode emits the run-time check *)
+Theorem C21_unbound_use_is_checked : forall ne args body tr o s2 l e r,
+  wf false body = true ->
+  graph_ok ne (build true args body) = true ->
+  exec (IS body) (bind args s_init) tr o s2 ->
+  In (l, e, false) tr ->
+  analyse (cfg_of ne (build true args body)) = Some r ->
+  exists b k c', stat_at (build true args body) b k = Some (LRef l e) /\
+                 cls_at ne (build true args body) r b k = Some c' /\ c' <> Bound.
+Proof. exact P_FlowCFG_Bridge.unbound_use_is_checked. Qed.
+Print Assumptions C21_unbound_use_is_checked.
+
+Theorem C21_no_hint_no_unbound_use : forall ne args body tr o s2 l e r,
+  wf false body = true ->
+  graph_ok ne (build true args body) = true ->
+  exec (IS body) (bind args s_init) tr o s2 ->
+  analyse (cfg_of ne (build true args body)) = Some r ->
+  (forall b k, stat_at (build true args body) b k = Some (LRef l e) ->
+               cls_at ne (build true args body) r b k = Some Bound) ->
+  ~ In (l, e, false) tr.
+Proof. exact P_FlowCFG_Bridge.no_hint_no_unbound_use. Qed.
+Print Assumptions C21_no_hint_no_unbound_use.
+
+(* the code as it is: break through two nested finally clauses skips the outer one - the read after
+   the loop happens with x unbound but is classified "definitely bound" (no check: NULL dereference) *)
+Theorem C21_asis_jump_skips_outer_finally_refuted :
+  (exists tr s2, exec (IS w1_body) (bind w1_args s_init) tr OExc s2 /\ In (7, 2, false) tr) /\
+  exists r, analyse (cfg_of 4 (build false w1_args w1_body)) = Some r /\
+    graph_ok 4 (build false w1_args w1_body) = true /\ wf false w1_body = true /\
+    forallb (fun q => match q with (s, b, k) =>
+               match s with LRef 7 2 => match cls_at 4 (build false w1_args w1_body) r b k with
+                                        | Some Bound => true | _ => false end
+                          | _ => true end end)
+            (all_stats (build false w1_args w1_body)) = true /\
+    existsb (fun q => match q with (LRef 7 2, _, _) => true | _ => false end)
+            (all_stats (build false w1_args w1_body)) = true.
+Proof. split; [exact P_FlowCFG_Bridge.w1_exec|exact P_FlowCFG_Bridge.w1_class]. Qed.
+Print Assumptions C21_asis_jump_skips_outer_finally_refuted.
+
+(* the code as it is: an exception raised inside a finally clause that ends in return reaches the
+   enclosing handler without a CFG edge *)
+Theorem C21_asis_exception_in_finally_ending_in_jump_refuted :
+  (exists tr s2, exec (IS w2_body) (bind w1_args s_init) tr OExc s2 /\ In (4, 2, false) tr) /\
+  exists r, analyse (cfg_of 3 (build false w1_args w2_body)) = Some r /\
+    graph_ok 3 (build false w1_args w2_body) = true /\ wf false w2_body = true /\
+    forallb (fun q => match q with (s, b, k) =>
+               match s with LRef 4 2 => match cls_at 3 (build false w1_args w2_body) r b k with
+                                        | Some Bound => true | _ => false end
+                          | _ => true end end)
+            (all_stats (build false w1_args w2_body)) = true /\
+    existsb (fun q => match q with (LRef 4 2, _, _) => true | _ => false end)
+            (all_stats (build false w1_args w2_body)) = true.
+Proof. split; [exact P_FlowCFG_Bridge.w2_exec|exact P_FlowCFG_Bridge.w2_class]. Qed.
+Print Assumptions C21_asis_exception_in_finally_ending_in_jump_refuted.
+
+(* the hypotheses of C21_unbound_use_is_checked hold on the first of these programs *)
+Example C21_cfg_nonvacuous : graph_ok 4 (build true w1_args w1_body) = true /\ wf false w1_body = true /\
+  exists r, analyse (cfg_of 4 (build true w1_args w1_body)) = Some r.
+Proof. exact P_FlowCFG_Bridge.w1_fixed_ok. Qed.
 
 (* x = 1; del x; if c: del x - the CFG dumped from the compiler for it:
    the second "del x" is classified cf_is_null, the read of c definitely bound *)
